@@ -26,7 +26,7 @@ from lv import core, model, gen, drive, sqlscope
 from lv.props import common
 
 ID = 'C09'
-BUDGET = {'quick': 200, 'thorough': 5000}        # generated programs (x 8 engines)
+BUDGET = {'quick': 160, 'thorough': 2500}        # generated programs (x 8 engines)
 WALL = {'quick': 900, 'thorough': 3600}
 ENGINES = list(sqlscope.ENGINES)
 RULE = ('programs from the typed core-fragment generator (facts, joins, multi-rule and '
@@ -55,12 +55,12 @@ ASSUMPTIONS = [
 ]
 AGG_N = ('Sum', 'Min', 'Max', 'Count', '+', 'List', 'Set', 'ArgMin', 'ArgMax')
 OPTS = dict(p_colnames=0.0, p_composite_col=0.3,
-            p_neg=0.2, p_agg=0.3, p_distinct=0.35, p_sibling_reuse=0.3, p_sibling_reuse_neg=0.3,
-            p_feed_sibling=0.2, nest_depth=2, agg_ops=AGG_N, pred_agg_ops_n=AGG_N,
+            p_neg=0.2, p_agg=0.25, p_distinct=0.35, p_sibling_reuse=0.3, p_sibling_reuse_neg=0.3,
+            p_feed_sibling=0.2, nest_depth=1, agg_ops=AGG_N, pred_agg_ops_n=AGG_N,
             pred_agg_ops_s=('Min', 'Max', 'List', 'Set', 'Count', 'ArgMin', 'ArgMax'),
-            p_aggx=0.08, p_aggx_nobody=0.5, p_agg_nobody=0.15,
-            n_idb=(2, 4), p_call_idb=0.35, p_inj_combine=0.3, p_inj_extra=0.15,
-            p_fcall_nest=0.2)
+            p_aggx=0.06, p_aggx_nobody=0.5, p_agg_nobody=0.12,
+            n_idb=(3, 4), p_call_idb=0.5, p_inj_combine=0.3, p_inj_extra=0.1,
+            p_fcall_nest=0.2, p_reuse_pick=0.5)
 # plan annotations drawn per concrete predicate (weights by repetition)
 PLAN_CHOICES = ((), (), (), ('@Ground',), ('@Ground',), ('@With',), ('@NoWith',),
                 ('@NoInject',), ('@NoInject', '@With'), ('@NoInject', '@NoWith'))
@@ -79,14 +79,34 @@ STRUCTURAL_SQLITE = ('no such column', 'no such table', 'near ', 'unrecognized t
 
 
 def draw_plan(prog, rng):
-    """-> (program with the annotation lines added to prog['ann'], labels)."""
-    if rng.random() < P_NO_PLAN:
+    """-> (program with the annotation lines added to prog['ann'], labels).
+    Either independent draws per concrete predicate, or the 'materialise' template: one or
+    two intensional predicates are @Ground (each becomes a CREATE TABLE statement of its
+    own), the others stay WITH tables / sub-queries that several statements share."""
+    r = rng.random()
+    if r < P_NO_PLAN:
         return prog, ['plan:none']
-    asg = {p: rng.choice(PLAN_CHOICES) for p in prog['preds']}
+    preds = list(prog['preds'])
+    idb = [p for p in preds if p.startswith('I')]
+    labels = []
+    if r < 0.6 and idb:
+        grounded = rng.sample(idb, min(len(idb), rng.choice((1, 1, 2))))
+        asg = {}
+        for p in preds:
+            if p in grounded:
+                asg[p] = ('@Ground',)
+            elif p in idb:
+                asg[p] = rng.choice(((), (), ('@With',), ('@NoInject',), ('@NoInject', '@With')))
+            else:
+                asg[p] = rng.choice(((), (), (), ('@With',), ('@NoInject',)))
+        labels.append('plan:template_materialise')
+    else:
+        asg = {p: rng.choice(PLAN_CHOICES) for p in preds}
+        labels.append('plan:independent')
     lines = ['%s(%s);' % (a, p) for p in sorted(asg) for a in asg[p]]
     p2 = dict(prog)
     p2['ann'] = list(prog.get('ann', [])) + lines
-    labels = sorted(set('plan:' + a for v in asg.values() for a in v)) or ['plan:none']
+    labels += sorted(set('plan:' + a for v in asg.values() for a in v))
     return p2, labels
 
 
